@@ -5,6 +5,8 @@ import gens
 
 GEN = ['numeric', 'hkl', 'c14']
 LEAN_MODULES = ['XfabVerif.Proofs.C14']
+# definitions the hand-written model mirrors (see harness/pins.py): a source change breaks the tie
+PINS = ['xfab/tools.py:ubi_to_u_b', 'xfab/laue.py:ubi_to_u_b']
 LEAN_DRIVER_MODULES = []
 RULE = ("every function defined in both modules is called in both on the same seeded inputs (streams of C01-C03, C05, C06, C09, C13: cells, rotations, "
         "Euler/Rodrigues values, strains, g-vectors scaled to sin(theta), space-group settings with conforming cells); B matrices / g-vectors are "
